@@ -44,6 +44,13 @@ Binding(ps, as) ==
             THEN <<"arg", CHOOSE k \in DOMAIN as : as[k].named /\ as[k].name = ps[i].name>>
             ELSE <<"default">>]
 
+\* argument k of a call is a literal of kind ArgKind(k); an omitted optional parameter gets its default (a string).
+\* The typed getters (GetParamInt / Float / Bool / String / List / Map) succeed exactly on their own kind.
+ArgKind(k) == CASE k % 5 = 1 -> "int" [] k % 5 = 2 -> "str" [] k % 5 = 3 -> "float" [] k % 5 = 4 -> "bool" [] OTHER -> "list"
+Getters == {"int", "float", "bool", "str", "list", "map"}
+BoundKind(b) == IF b[1] = "arg" THEN ArgKind(b[2]) ELSE IF b[1] = "default" THEN "str" ELSE "rest"
+GetterOK(g, b) == BoundKind(b) = g
+
 (* -------------------------------- machine ------------------------------- *)
 VARIABLES ps, as, k, slots, namedSeen, verdict
 vars == <<ps, as, k, slots, namedSeen, verdict>>
@@ -91,5 +98,6 @@ Laws ==
 
 Emit == verdict # "binding" =>
           PrintT("@@" \o ToJson([params |-> ps, args |-> as, accepted |-> verdict = "accepted",
-                                 binding |-> IF verdict = "accepted" THEN Binding(ps, as) ELSE <<>>]))
+                                 binding |-> IF verdict = "accepted" THEN Binding(ps, as) ELSE <<>>,
+                                 kinds |-> IF verdict = "accepted" THEN [i \in DOMAIN ps |-> BoundKind(Binding(ps, as)[i])] ELSE <<>>]))
 =============================================================================
